@@ -529,3 +529,206 @@ Proof.
   - intros [X|X]; [exfalso; apply X; reflexivity|discriminate X].
   - intros m0 x bm q E. apply (sl_claim st S). right; right. exists t. rewrite (tpushes_cons_cont _ _ _ Hc), E. left. reflexivity.
 Qed.
+
+(** ** the worker queues a reply / sets the panic flag *)
+Lemma exec_lsend_E : forall pd st m t m0 p x r st' ev,
+  CInv (core st) -> SlInv st -> PqInv st -> XInv st -> ERel pd st m -> (t < nthr st)%nat ->
+  tcont (thr st t) = ILock m0 (LPqLSend p x) :: r -> exec_instr st t (ILock m0 (LPqLSend p x)) r = (st', ev) ->
+  ERel pd st' (fold_left m14r_step (evs t ev) m).
+Proof.
+  intros pd st m t m0 p x r st' ev I S Q X R Ht Hc H.
+  destruct (pc st Q t m0 p x) as [Ep [Hp0 Hcu]]; [rewrite Hc; left; reflexivity|].
+  assert (Nm : t <> main) by (intro E; subst t; destruct (x_main _ X) as [_ Xm]; lia).
+  destruct (exec_instr_eff _ _ _ _ _ _ I Hc H) as [F _ [Esl _] Hpipe _ _ _].
+  cbn [exec_instr exec_lact] in H.
+  set (s1 := acq_mtx (set_owner st (updM (owner st) m0 (Some t))) t m0) in *.
+  set (wake := match precvq (pps s1 p) with [] => olist (climb_start s1 (pw (pps s1 p)) (Some (HPipe p))) | _ => [] end) in *.
+  assert (Wk : forall j, In j wake -> eqi j).
+  { unfold wake. destruct (precvq (pps s1 p)); [|intros j []].
+    destruct (climb_start s1 (pw (pps s1 p)) (Some (HPipe p))) as [i0|] eqn:Ec; [|intros j []].
+    apply climb_at_climb in Ec. destruct Ec as [k ->]. intros j [<-|[]]. exact Logic.I. }
+  inversion H; subst st' ev; clear H.
+  assert (Pl : forall e, In e [ELock m0] -> c14_plain e) by (intros e [<-|[]]; exact Logic.I).
+  apply (e_frame pd st _ m _ t _ r (IUnlock (MPq p) (URet (RBool (negb (pcancel (pps s1 p))))) :: wake) p [x] false R Q (m14r_plain_fold t _ m Pl) F Hc); auto.
+  - thr_simpl.
+  - intro q. cbn. unfold updZ. destruct (Z.eqb_spec q p) as [->|Nq]; cbn; rewrite ?app_nil_r, ?andb_false_r, ?orb_false_r; repeat split; reflexivity.
+  - exact Logic.I.
+  - intro q. cbn. rewrite Z.eqb_sym. destruct (q =? p); reflexivity.
+  - intros m1 q E. discriminate E.
+  - intro E. discriminate E.
+  - intros _. split; [exact Nm|]. split; [split; [exact Ht|rewrite <- Ep; exact Hp0]|]. split; [symmetry; exact Ep|intros _; exact Hcu].
+  - intros m1 y bm q E. discriminate E.
+  - intros j [<-|Hj]; [exact Logic.I|apply Wk; exact Hj].
+Qed.
+
+Lemma exec_panic_E : forall pd st m t m0 q r st' ev,
+  CInv (core st) -> SlInv st -> PqInv st -> XInv st -> ERel pd st m ->
+  tcont (thr st t) = ILock m0 (LPqPanic q) :: r -> exec_instr st t (ILock m0 (LPqPanic q)) r = (st', ev) ->
+  ERel pd st' (fold_left m14r_step (evs t ev) m).
+Proof.
+  intros pd st m t m0 q r st' ev I S Q X R Hc H.
+  destruct (e_porder _ _ _ R t q m0 [] (r ++ tfinal (thr st t))) as [Em [W [Eq _]]]; [rewrite Hc; reflexivity|].
+  assert (Nm : t <> main) by (intro E; subst t; destruct (x_main _ X) as [_ Xm]; destruct W as [_ W]; lia).
+  destruct (exec_instr_eff _ _ _ _ _ _ I Hc H) as [F _ [Esl _] Hpipe _ _ _].
+  cbn [exec_instr exec_lact] in H.
+  set (s1 := acq_mtx (set_owner st (updM (owner st) m0 (Some t))) t m0) in *.
+  inversion H; subst st' ev; clear H.
+  assert (Pl : forall e, In e [ELock m0] -> c14_plain e) by (intros e [<-|[]]; exact Logic.I).
+  apply (e_frame pd st _ m _ t _ r [IUnlock (MPq q) UNone] q [] true R Q (m14r_plain_fold t _ m Pl) F Hc); auto.
+  - thr_simpl.
+  - intro q0. cbn. unfold updZ. destruct (Z.eqb_spec q0 q) as [->|Nq]; cbn; rewrite ?app_nil_r, ?andb_false_r, ?orb_false_r, ?orb_true_r; repeat split; reflexivity.
+  - exact Logic.I.
+  - intro q0. cbn. destruct (q0 =? q); reflexivity.
+  - intros m1 q0 E. inversion E; subst. auto.
+  - intros _. rewrite Em. reflexivity.
+  - intros _. split; [exact Nm|]. split; [exact W|]. split; [symmetry; exact Eq|intro E; exfalso; apply E; reflexivity].
+  - intros m1 y bm q0 E. discriminate E.
+  - intros j [<-|[]]. exact Logic.I.
+Qed.
+
+(** ** the main thread runs the wake handler of a pipe *)
+Lemma hq_list : forall k, (forall j, In j k -> hq j) ->
+  (forall q, ufw q k = []) /\ (forall q, ~ hasterm q k) /\ (forall m0 q d, ~ In (ILock m0 (LPqHandler q d)) k) /\
+  (forall m0 q msgs tm, ~ In (IUnlock m0 (UPqFwd q msgs tm)) k).
+Proof.
+  intros k H. split; [|split; [|split]].
+  - intro q. induction k as [|j k IH]; [reflexivity|]. rewrite ufw_cons, IH by (intros; apply H; right; assumption). rewrite app_nil_r.
+    pose proof (H j (or_introl eq_refl)) as Hj. destruct j; try reflexivity. destruct a; try reflexivity. destruct Hj.
+  - intros q [m0 [msgs [b Hin]]]. exact (H _ Hin).
+  - intros m0 q d Hin. exact (H _ Hin).
+  - intros m0 q msgs tm Hin. exact (H _ Hin).
+Qed.
+
+Lemma on_pipe_app : forall q a b, on_pipe q (a ++ b) = on_pipe q a ++ on_pipe q b.
+Proof.
+  intros q a b. induction a as [|[q0 x] a IH]; [reflexivity|]. cbn. destruct (q0 =? q); [cbn; rewrite IH; reflexivity|exact IH].
+Qed.
+Lemma on_pipe_map_same : forall q l, on_pipe q (map (fun x => (q, x)) l) = l.
+Proof. intros q l. induction l as [|x l IH]; [reflexivity|]. cbn. rewrite Z.eqb_refl, IH. reflexivity. Qed.
+Lemma on_pipe_map_other : forall q q0 l, q0 <> q -> on_pipe q (map (fun x => (q0, x)) l) = [].
+Proof. intros q q0 l Hn. induction l as [|x l IH]; [reflexivity|]. cbn. destruct (Z.eqb_spec q0 q); [congruence|exact IH]. Qed.
+
+Lemma prefixZ_app : forall a c, prefixZ a (a ++ c) = true.
+Proof. induction a as [|x a IH]; intro c; [reflexivity|]. cbn. rewrite Z.eqb_refl, IH. reflexivity. Qed.
+
+Lemma wkr_not_main : forall st u, XInv st -> wkr st u -> u <> main.
+Proof. intros st u X [_ W] E. subst u. destruct (x_main _ X) as [_ Xm]. lia. Qed.
+
+Lemma exec_handler_E : forall pd st m t m0 q d r st' ev,
+  CInv (core st) -> SlInv st -> PqInv st -> XInv st -> ERel pd st m ->
+  tcont (thr st t) = ILock m0 (LPqHandler q d) :: r -> exec_instr st t (ILock m0 (LPqHandler q d)) r = (st', ev) ->
+  ERel pd st' (fold_left m14r_step (evs t ev) m).
+Proof.
+  intros pd st m t m0 q d r st' ev I S Q X R Hc H.
+  assert (Tm : t = main).
+  { destruct (Nat.eq_dec t main) as [E|E]; [exact E|exfalso]. apply (e_hmain _ _ _ R t (ILock m0 (LPqHandler q d)) E); rewrite Hc; left; reflexivity. }
+  subst t.
+  assert (Hm : mcont st = ILock m0 (LPqHandler q d) :: r) by exact Hc.
+  assert (Rq : forall j, In j r -> hq j) by (intros j Hj; apply (e_hpos _ _ _ R _ r j Hm Hj)).
+  destruct (hq_list r Rq) as [Ru [Rt [Rh Rf]]].
+  destruct (exec_instr_eff _ _ _ _ _ _ I Hc H) as [F _ [Esl _] Hpipe _ _ _].
+  destruct F as [Hn [Hf Ho]].
+  assert (Tp : forall u, tpipe (thr st' u) = tpipe (thr st u)) by (intro u; apply Hf).
+  assert (Cu : forall u, tcur (thr st' u) = tcur (thr st u)) by (intro u; apply Hf).
+  assert (Fi : forall u, tfinal (thr st' u) = tfinal (thr st u)) by (intro u; apply Hf).
+  assert (Pl : forall y, In y (pipeline st') <-> In y (pipeline st)).
+  { intro y. rewrite Hpipe. split; [intros [A|[m1 [bm [h A]]]]; [exact A|discriminate A]|auto]. }
+  set (msgs := precvq (pps st q)). set (pb := ppanic (pps st q)).
+  set (U := IUnlock (MPq q) (UPqFwd q msgs (if d then Some pb else None))).
+  cbn [exec_instr exec_lact] in H. unfold ghost_handler in H.
+  set (s1 := acq_mtx (set_owner st (updM (owner st) m0 (Some main))) main m0) in *.
+  assert (Ev : exists e2, ev = ELock m0 :: [EHandler (HPipe q) d; e2] /\ c14_plain e2) by (inversion H; eexists; split; [reflexivity|exact Logic.I]).
+  assert (Hc' : tcont (thr st' main) = U :: r) by (inversion H; subst st'; unfold U, msgs, pb, s1; destruct d; thr_simpl).
+  assert (Pe : forall q', pexists (pps st' q') = pexists (pps st q')).
+  { intro q'. inversion H; subst st'. unfold s1. destruct d; cbn; unfold updZ; destruct (Z.eqb_spec q' q) as [->|]; reflexivity. }
+  assert (Pr : forall q', precvq (pps st' q') = if q' =? q then [] else precvq (pps st q')).
+  { intro q'. inversion H; subst st'. unfold s1. destruct d; cbn; unfold updZ; destruct (q' =? q); reflexivity. }
+  assert (Pp : forall q', ppanic (pps st' q') = if (q' =? q) && d then false else ppanic (pps st q')).
+  { intro q'. inversion H; subst st'. unfold s1. destruct d; cbn; unfold updZ; destruct (Z.eqb_spec q' q) as [->|]; reflexivity. }
+  clear H. clearbody s1.
+  destruct Ev as [e2 [-> Pe2]].
+  assert (Sm : r14_same m (fold_left m14r_step (evs main [ELock m0; EHandler (HPipe q) d; e2]) m)).
+  { apply m14r_plain_fold. intros e [<-|[<-|[<-|[]]]]; try exact Logic.I. exact Pe2. }
+  set (m' := fold_left m14r_step (evs main [ELock m0; EHandler (HPipe q) d; e2]) m) in *. clearbody m'.
+  destruct Sm as [M1 M2 M3 M4 M5 M6 M7 M8 M9].
+  assert (Hm' : mcont st' = U :: r) by exact Hc'.
+  assert (Co : forall u, u <> main -> tcont (thr st' u) = tcont (thr st u)) by exact Ho.
+  assert (Wk : forall u, wkr st' u <-> wkr st u) by (intro u; unfold wkr; rewrite Hn, Tp; tauto).
+  assert (Tps : forall u, tpushes (thr st' u) = tpushes (thr st u)).
+  { intro u. unfold tpushes. rewrite Fi. destruct (Nat.eq_dec u main) as [->|Hu]; [rewrite Hc, Hc'; reflexivity|rewrite (Co u Hu); reflexivity]. }
+  assert (Qex : pexists (pps st q) = true).
+  { apply (e_ins _ _ _ R q). right; right. exists m0, d. rewrite Hm. left. reflexivity. }
+  assert (Qnt : memZ q (m14_term m) = false).
+  { destruct (memZ q (m14_term m)) eqn:E; [|reflexivity]. exfalso. destruct (e_term _ _ _ R q E) as [_ [_ [C _]]]. apply (C m0 d). rewrite Hm. left. reflexivity. }
+  assert (Ufq : forall q', ufw q' (mcont st') = (if q' =? q then msgs else []) /\ ufw q' (mcont st) = []).
+  { intro q'. rewrite Hm, Hm', (ufw_cons q' U r), (ufw_cons q' (ILock m0 (LPqHandler q d)) r), Ru, !app_nil_r. split; [|reflexivity]. unfold U. cbn. rewrite Z.eqb_sym. destruct (q' =? q); [apply app_nil_r|reflexivity]. }
+  assert (Htm : forall q', hasterm q' (mcont st') -> q' = q /\ d = true).
+  { intros q' [m1 [ms [b Hin]]]. rewrite Hm' in Hin. destruct Hin as [E|Hin]; [|exfalso; exact (Rf _ _ _ _ Hin)].
+    unfold U in E. destruct d; inversion E; auto. }
+  assert (Pg : forall q', prog14 st m q' -> prog14 st' m' q').
+  { intros q' [A|[[x [A B]]|[A|A]]].
+    - left. rewrite M5. exact A.
+    - right; left. exists x. rewrite Pl, Esl. auto.
+    - rewrite Hm in A. destruct A as [A|A]; [|exfalso; exact (Rh _ _ _ A)]. inversion A; subst q' d.
+      right; right; right. exists (MPq q), msgs, pb. rewrite Hm'. left. reflexivity.
+    - exfalso. destruct A as [m1 [ms [b Hin]]]. rewrite Hm in Hin. destruct Hin as [E|Hin]; [discriminate E|exact (Rf _ _ _ _ Hin)]. }
+  constructor.
+  - rewrite M8. apply (e_bad _ _ _ R).
+  - rewrite M9, Hn. apply (e_nthr _ _ _ R).
+  - intros t0 q0 E. rewrite M9, Tp, !Cu. destruct (e_sp _ _ _ R t0 q0 E) as [A [B C]]. split; [exact A|]. split; [exact B|].
+    destruct (Nat.eq_dec t0 main) as [->|Ht0]; [rewrite Hc in C; discriminate C|rewrite Co; auto].
+  - intros u q0. rewrite M1, M9, Tp. apply (e_owner _ _ _ R).
+  - intros u u'. rewrite !Wk, !Tp. apply (e_wuniq _ _ _ R).
+  - intros u. rewrite Wk, Tp, Pe. apply (e_wex _ _ _ R).
+  - intros q0. rewrite Pe. intro H. destruct (e_exw _ _ _ R q0 H) as [u [A B]]. exists u. rewrite Wk, Tp. auto.
+  - intros q0. rewrite Pe. intro Hq. assert (Nq : q0 <> q) by (intro E; subst q0; rewrite Qex in Hq; discriminate Hq).
+    rewrite Esl, M2, M4, Pr, Pp, M5, M6, M7, M3. destruct (Z.eqb_spec q0 q); [contradiction|]. cbn [andb]. apply (e_noex _ _ _ R q0 Hq).
+  - intros q0 H. rewrite Pe. destruct (Z.eq_dec q0 q) as [->|Nq]; [exact Qex|]. exfalso.
+    destruct (Ufq q0) as [U1 _]. destruct (Z.eqb_spec q0 q); [contradiction|].
+    destruct H as [H|[H|[m1 [d1 H]]]]; [apply H; exact U1|destruct (Htm _ H) as [Y _]; contradiction|].
+    rewrite Hm' in H. destruct H as [H|H]; [discriminate H|exact (Rh _ _ _ H)].
+  - rewrite Esl. apply (e_uniq _ _ _ R).
+  - intros u Hu. cbn zeta. rewrite Tp, M2, M4, Pr. apply Wk in Hu. pose proof (e_ls _ _ _ R u Hu) as L. cbn zeta in L. rewrite L.
+    rewrite (Co u (wkr_not_main _ _ X Hu)). destruct (Ufq (tpipe (thr st u))) as [U1 U2]. rewrite U1, U2.
+    destruct (Z.eqb_spec (tpipe (thr st u)) q) as [E|E]; [rewrite E; reflexivity|reflexivity].
+  - intros u x Hu. rewrite Cu, Tp, M2. apply Wk in Hu. apply (e_lscur _ _ _ R u x Hu).
+  - intros q0 x. rewrite M3, M4, Pr. intro H. apply (e_lsdone _ _ _ R) in H. destruct (Ufq q0) as [U1 U2]. rewrite U1. rewrite U2 in H.
+    destruct (Z.eqb_spec q0 q) as [->|E]; [|exact H]. cbn [app] in H. rewrite app_nil_r. exact H.
+  - intros q0. rewrite M5. intro H. assert (Nq : q0 <> q) by (intro E; subst q0; rewrite Qnt in H; discriminate H).
+    destruct (e_term _ _ _ R q0 H) as [A [B [C [D E]]]]. rewrite Esl, Pr. destruct (Z.eqb_spec q0 q); [contradiction|].
+    split; [exact A|]. split; [intros u x; rewrite Tps; apply B|].
+    split; [intros m1 d1 Hin; rewrite Hm' in Hin; destruct Hin as [Hin|Hin]; [discriminate Hin|exact (Rh _ _ _ Hin)]|].
+    split; [|exact E]. intros m1 ms tm Hin. rewrite Hm' in Hin. destruct Hin as [Hin|Hin]; [inversion Hin; subst; apply Nq; reflexivity|exact (Rf _ _ _ _ Hin)].
+  - intros m1 q0 Hin. exfalso. rewrite Hm' in Hin. destruct Hin as [Hin|Hin]; [discriminate Hin|exact (Rh _ _ _ Hin)].
+  - intros q0 Hin. destruct (Htm _ Hin) as [-> ->]. rewrite Esl, Pr, Z.eqb_refl.
+    destruct (e_hdel _ _ _ R m0 q) as [_ [A B]]; [rewrite Hm; left; reflexivity|].
+    split; [exact A|]. split; [intros u x; rewrite Tps; apply B|reflexivity].
+  - intros i0 r0 j E Hj. rewrite Hm' in E. inversion E; subst. apply Rq. exact Hj.
+  - intros u j Hu Hj. rewrite (Co u Hu) in Hj. apply (e_hmain _ _ _ R u j Hu Hj).
+  - intros u Hu. cbn zeta. rewrite Tp, M5, M6, Pp, Fi. apply Wk in Hu. rewrite (Co u (wkr_not_main _ _ X Hu)). intros H1 H2.
+    assert (H2' : ~ hasterm (tpipe (thr st u)) (mcont st)).
+    { intros [m1 [ms [b Hin]]]. rewrite Hm in Hin. destruct Hin as [E|Hin]; [discriminate E|exact (Rf _ _ _ _ Hin)]. }
+    rewrite (e_panic _ _ _ R u Hu H1 H2').
+    destruct (Z.eqb_spec (tpipe (thr st u)) q) as [E|E]; [|tauto].
+    destruct d; [|tauto]. exfalso. apply H2. rewrite E. exists (MPq q), msgs, pb. rewrite Hm'. left. reflexivity.
+  - intros u q0 m1 a b E. rewrite Fi in E. rewrite Wk, Tp.
+    destruct (Nat.eq_dec u main) as [->|Hu]; [|rewrite (Co u Hu) in E; apply (e_porder _ _ _ R u q0 m1 a b E)].
+    rewrite Hc' in E. destruct a as [|a0 a]; [cbn in E; inversion E|]. cbn in E. inversion E; subst a0.
+    apply (e_porder _ _ _ R main q0 m1 (ILock m0 (LPqHandler q d) :: a) b). rewrite Hc. cbn. f_equal. assumption.
+  - intros m1 q0 ms b Hin. rewrite M6. rewrite Hm' in Hin. destruct Hin as [Hin|Hin]; [|exfalso; exact (Rf _ _ _ _ Hin)].
+    unfold U in Hin. destruct d; inversion Hin; subst q0 ms b. clear Hin.
+    destruct (e_exw _ _ _ R q Qex) as [u [Wu Eu]].
+    destruct (e_hdel _ _ _ R m0 q) as [_ [_ Np]]; [rewrite Hm; left; reflexivity|].
+    assert (H2' : ~ hasterm q (mcont st)).
+    { intros [m2 [ms [b Hin]]]. rewrite Hm in Hin. destruct Hin as [E|Hin]; [discriminate E|exact (Rf _ _ _ _ Hin)]. }
+    pose proof (e_panic _ _ _ R u Wu) as Pn. cbn zeta in Pn. rewrite Eu in Pn. specialize (Pn Qnt H2').
+    assert (NoP : ~ In (panic_i q) (tcont (thr st u) ++ tfinal (thr st u))).
+    { intro Hin. apply in_split in Hin. destruct Hin as [a [b Hin]].
+      destruct (e_porder _ _ _ R u q (MPq q) a b Hin) as [_ [_ [_ [x Hx]]]].
+      apply (Np u x). rewrite tpushes_app_eq, Hin, pushes_app, pushes_cons. apply in_or_app. right. apply in_or_app. right. exact Hx. }
+    unfold pb. destruct (memZ q (m14_panic m)) eqn:Em; destruct (ppanic (pps st q)) eqn:Epp; try reflexivity; exfalso.
+    + destruct (proj1 Pn eq_refl) as [A|A]; [discriminate A|exact (NoP A)].
+    + assert (A : false = true) by (apply Pn; left; reflexivity). discriminate A.
+  - intros u Hu. rewrite Tp, Tps. apply Wk in Hu. destruct (e_wprog _ _ _ R u Hu) as [A|A]; [left; exact A|right; apply Pg; exact A].
+  - intros q0. rewrite M7. intro H. apply Pg. apply (e_exited _ _ _ R q0 H).
+Qed.
